@@ -134,6 +134,7 @@ fn main() {
     let mut sum = Summary::default();
     sum.rule = "case = (source items with at most one injected Err, adapter chain of depth 0..3 over {filter,map,filter_map}, consumer {try_for_each, step-wise try_for_some, for_each}, optional sink fault position); \
 plus triple-level cases: sources {iterator, N-Triples parser with a syntax error at statement k, store}, sinks {insert_all into a capacity-limited store, remove_all, collect, N-Triples serializer on a failing writer}; \
+plus concrete-end cases: generated N-Triples / N-Quads documents (valid statements with varied spacing and escapes, blank / comment / CR lines, malformed lines at generated positions, last line with or without LF) read by sophia_turtle::parser::{nt,nq} through a chunked Read probe, adapter chains of depth 0..3 over statements, consumers {recording closure failing at item j, insert_all into set datasets, Nt/Nq serializer over a byte-budget / all-or-nothing / Ok(0) io::Write probe}, and the parser pulled on after the failure to observe where it stopped; \
 non-trivial = a fault is actually hit after at least one item was consumed, or a filter dropped something; distinct = distinct printed case".into();
     let base = Rng::new(a.seed);
     let mut cases: Vec<(usize, String)> = vec![];
@@ -142,7 +143,8 @@ non-trivial = a fault is actually hit after at least one item was consumed, or a
     let range: Vec<usize> = match a.only { Some(i) => vec![i], None => (0..a.n).collect() };
     for idx in range {
         let mut r = base.fork(idx as u64);
-        let flavour = idx % 4; // 0,1,2: generic pipeline; 3: triple-level
+        let flavour = idx % 6; // 0,1,2: generic pipeline; 3: triple-level; 4,5: concrete ends (documents -> Rio parser -> quad adapters -> closure / insert_all / serializer on a probe writer)
+        if flavour >= 4 { concrete::case(idx, &mut r, flavour, a.only.is_some(), &mut sum, &mut cases, &mut seen); continue; }
         if flavour != 3 {
             let batch = r.chance(1, 2);
             let len = r.below(8);
@@ -364,9 +366,395 @@ non-trivial = a fault is actually hit after at least one item was consumed, or a
         sum.evaluations += 1;
     }
     if a.only.is_none() {
-        sum.shards = write_shards(&a.out, "From Sophia.C15 Require Import Model.", &cases, a.shards);
+        sum.shards = write_shards(&a.out, "From Sophia.Common Require Import Prelude Term.\nFrom Sophia.C03 Require Import Model.\nFrom Sophia.C15 Require Import Model Generic ParserSource SerializerSink EndToEnd.", &cases, a.shards);
         sum.extra.push(("coq_cases".into(), cases.len().to_string()));
         std::fs::write(format!("{}/summary.json", a.out), sum.to_json()).unwrap();
     }
     println!("c15: {} cases, {} distinct non-trivial, {} oracle failures", sum.evaluations, sum.distinct_nontrivial, sum.oracle_failures.len());
+}
+
+
+/// The concrete ends of a stream: N-Triples / N-Quads documents through the real Rio-based parsers, adapter chains
+/// over statements, and consumers including the real serializers over a probe writer.
+mod concrete {
+    use super::{K, c_outc as _};
+    use rio_api::parser::ParseError as _;
+    use rio_turtle::TurtleError;
+    use sophia_api::prelude::*;
+    use sophia_api::quad::Spog;
+    use sophia_api::source::{IntoSource, QuadSource, Source, StreamError, StreamResult, TripleSource};
+    use sophia_turtle::serializer::nq::NqSerializer;
+    use sophia_turtle::serializer::nt::NtSerializer;
+    use std::cell::Cell;
+    use std::io::{self, Read};
+    use std::rc::Rc;
+    use verif_harness::*;
+
+    pub type Q = Spog<ST>;
+    fn own<T: Quad>(q: T) -> Q { ([q.s().into_term(), q.p().into_term(), q.o().into_term()], q.g().map(|g| g.into_term())) }
+    fn own3<T: Triple>(t: T) -> Q { ([t.s().into_term(), t.p().into_term(), t.o().into_term()], None) }
+
+    // ---------- adapters over statements ----------
+    #[derive(Clone, Debug, PartialEq)]
+    pub enum QA { FilterDefaultGraph, FilterNamedGraph, FilterObjLiteral, FilterPred(&'static str), FilterNone, FilterAll, MapDropGraph, MapSetGraph(&'static str), MapSetObj(&'static str), FmGraphFromObj, FmUnquote }
+    fn qkind(a: &QA) -> K { match a { QA::FilterDefaultGraph | QA::FilterNamedGraph | QA::FilterObjLiteral | QA::FilterPred(_) | QA::FilterNone | QA::FilterAll => K::F, QA::MapDropGraph | QA::MapSetGraph(_) | QA::MapSetObj(_) => K::M, _ => K::FM } }
+    fn qfilt(a: &QA, q: &Q) -> bool { match a {
+        QA::FilterDefaultGraph => q.1.is_none(), QA::FilterNamedGraph => q.1.is_some(), QA::FilterObjLiteral => q.0[2].is_literal(),
+        QA::FilterPred(i) => q.0[1].is_iri() && q.0[1].iri().unwrap().as_str() == *i, QA::FilterNone => false, QA::FilterAll => true, _ => unreachable!() } }
+    fn qmapf(a: &QA, q: Q) -> Q { let ([s, p, o], g) = q; match a {
+        QA::MapDropGraph => ([s, p, o], None), QA::MapSetGraph(i) => ([s, p, o], Some(iri(i))), QA::MapSetObj(l) => ([s, p, lit_dt(l, &format!("{XSD}string"))], g), _ => unreachable!() } }
+    fn qfmf(a: &QA, q: Q) -> Option<Q> { let ([s, p, o], g) = q; match a {
+        QA::FmGraphFromObj => if o.is_iri() { let gn = o.clone(); Some(([s, p, o], Some(gn))) } else { None },
+        QA::FmUnquote => match s { ST::Triple(b) => { let [s2, p2, o2] = *b; Some(([s2, p2, o2], g)) } _ => None },
+        _ => unreachable!() } }
+    pub fn qthrough(chain: &[QA], q: Q) -> Option<Q> { let mut q = q; for a in chain { match qkind(a) { K::F => if !qfilt(a, &q) { return None }, K::M => q = qmapf(a, q), K::FM => q = qfmf(a, q)? } } Some(q) }
+    fn c_qa(a: &QA) -> String { match a {
+        QA::FilterDefaultGraph => "QFilterDefaultGraph".into(), QA::FilterNamedGraph => "QFilterNamedGraph".into(), QA::FilterObjLiteral => "QFilterObjLiteral".into(),
+        QA::FilterPred(i) => format!("(QFilterPred {})", coq_str(i)), QA::FilterNone => "QFilterNone".into(), QA::FilterAll => "QFilterAll".into(),
+        QA::MapDropGraph => "QMapDropGraph".into(), QA::MapSetGraph(i) => format!("(QMapSetGraph {})", coq_str(i)), QA::MapSetObj(l) => format!("(QMapSetObj {})", coq_str(l)),
+        QA::FmGraphFromObj => "QFilterMapGraphFromObj".into(), QA::FmUnquote => "QFilterMapUnquote".into() } }
+    fn c_quad(q: &Q) -> String { format!("({}, {}, {}, {})", coq_term(&q.0[0]), coq_term(&q.0[1]), coq_term(&q.0[2]), coq_opt(q.1.as_ref().map(|g| coq_term(g)))) }
+
+    // ---------- probes ----------
+    /// hands the document over in pieces of at most `chunk` bytes and counts the calls
+    struct ReadProbe { data: Vec<u8>, pos: usize, chunk: usize, reads: Rc<Cell<usize>> }
+    impl Read for ReadProbe {
+        fn read(&mut self, buf: &mut [u8]) -> io::Result<usize> {
+            self.reads.set(self.reads.get() + 1);
+            let n = self.chunk.min(buf.len()).min(self.data.len() - self.pos);
+            buf[..n].copy_from_slice(&self.data[self.pos..self.pos + n]); self.pos += n; Ok(n)
+        }
+    }
+    #[derive(Clone, Copy, Debug, PartialEq)]
+    pub enum WD { Budget { budget: usize, cap: usize, code: u64 }, Atomic { budget: usize, code: u64 }, Zero { budget: usize, cap: usize } }
+    fn c_wd(w: &WD) -> String { match w { WD::Budget { budget, cap, code } => format!("(WBudget {budget}%nat {cap}%nat {code})"), WD::Atomic { budget, code } => format!("(WAtomic {budget}%nat {code})"), WD::Zero { budget, cap } => format!("(WZero {budget}%nat {cap}%nat)") } }
+    /// the io::Write probe: records the accepted bytes, every call, and every call made after a call had failed
+    pub struct WriteProbe { wd: WD, pub acc: Vec<u8>, pub calls: usize, failed: bool, pub after: usize }
+    impl WriteProbe { fn new(wd: WD) -> Self { WriteProbe { wd, acc: vec![], calls: 0, failed: false, after: 0 } } }
+    impl io::Write for WriteProbe {
+        fn write(&mut self, buf: &[u8]) -> io::Result<usize> {
+            self.calls += 1; if self.failed { self.after += 1; }
+            match self.wd {
+                WD::Budget { budget, cap, code } => if self.acc.len() < budget { let n = (budget - self.acc.len()).min(cap).min(buf.len()); self.acc.extend_from_slice(&buf[..n]); Ok(n) } else { self.failed = true; Err(io::Error::new(io::ErrorKind::Other, MyErr(code))) },
+                WD::Atomic { budget, code } => if self.acc.len() + buf.len() <= budget { self.acc.extend_from_slice(buf); Ok(buf.len()) } else { self.failed = true; Err(io::Error::new(io::ErrorKind::Other, MyErr(code))) },
+                WD::Zero { budget, cap } => if self.acc.len() < budget { let n = (budget - self.acc.len()).min(cap).min(buf.len()); self.acc.extend_from_slice(&buf[..n]); Ok(n) } else { Ok(0) },
+            }
+        }
+        fn flush(&mut self) -> io::Result<()> { if self.failed { self.after += 1; } Ok(()) }
+    }
+    /// pass-through so that a consumer taking its source by value leaves it usable afterwards
+    struct ByRef<'a, S>(&'a mut S);
+    impl<'a, S: Source> Source for ByRef<'a, S> {
+        type Item<'x> = S::Item<'x>;
+        type Error = S::Error;
+        fn try_for_some_item<E, F>(&mut self, f: F) -> StreamResult<bool, S::Error, E> where E: std::error::Error + Send + Sync + 'static, F: FnMut(Self::Item<'_>) -> Result<(), E> { self.0.try_for_some_item(f) }
+    }
+
+    // ---------- observations ----------
+    #[derive(Clone, Debug, PartialEq)]
+    pub enum POut { Done, Source(u64), Sink(u64), SinkWriteZero, SinkOther(String) }
+    fn c_pkind(o: &POut) -> String { match o { POut::Done => "PDone".into(), POut::Source(l) => format!("(PSource {l})"), POut::Sink(e) => format!("(PSink {e})"), _ => "PMore".into() } }
+    fn c_skind(o: &POut) -> String { match o { POut::Done => "SDone".into(), POut::Source(l) => format!("(SSource {l})"), POut::Sink(e) => format!("(SSinkDev {e})"), POut::SinkWriteZero => "SSinkWriteZero".into(), _ => "SMore".into() } }
+    fn line_of(e: &TurtleError) -> u64 { e.textual_position().map(|p| p.line_number()).unwrap_or(u64::MAX) }
+    /// the writer's error value as it arrives in the SinkError.  In the serializers' closure the `?` after every write
+    /// but the last returns the writer's io::Error as it is; only the error of the final `w.write_all(b".\n")` goes
+    /// through `.map_err(|e| io::Error::new(Other, e))` and arrives wrapped once.  Both shapes carry the original value.
+    fn io_payload(e: &io::Error) -> POut {
+        if e.kind() == io::ErrorKind::WriteZero { return POut::SinkWriteZero; }
+        match e.get_ref() {
+            Some(x) => { if let Some(m) = x.downcast_ref::<MyErr>() { POut::Sink(m.0) } else if let Some(i) = x.downcast_ref::<io::Error>() { io_payload(i) } else { POut::SinkOther(format!("{e:?}")) } }
+            None => POut::SinkOther(format!("{e:?}")),
+        }
+    }
+    #[derive(Clone, Debug)]
+    pub enum Cons { Rec { fault: Option<(usize, u64)>, stepwise: bool }, Insert { init: Vec<Q>, which: usize }, Ser { nt_out: bool, wd: WD } }
+    #[derive(Clone, Debug, Default)]
+    pub struct Obs { trace: Vec<Q>, out: Option<POut>, resumed: Vec<Result<Q, u64>>, bytes: Vec<u8>, calls: usize, after: usize, content: Vec<Q>, count: usize, sink_calls_after_failure: usize, reads_at_failure: usize, reads_total: usize }
+
+    fn run<S>(mut s: S, c: &Cons, reads: &Rc<Cell<usize>>) -> Obs where S: QuadSource<Error = TurtleError> {
+        let mut o = Obs::default();
+        match c {
+            Cons::Rec { fault, stepwise } => {
+                let mut failed = false; let mut after = 0usize; let mut trace: Vec<Q> = vec![];
+                let mut f = |q: Q| -> Result<(), MyErr> { if failed { after += 1; } trace.push(q); match fault { Some((j, e)) if trace.len() == *j + 1 => { failed = true; Err(MyErr(*e)) } _ => Ok(()) } };
+                let res: Result<(), StreamError<TurtleError, MyErr>> = if *stepwise { loop { match s.try_for_some_quad(|q| f(own(q))) { Ok(true) => {} Ok(false) => break Ok(()), Err(e) => break Err(e) } } } else { s.try_for_each_quad(|q| f(own(q))) };
+                o.out = Some(match res { Ok(()) => POut::Done, Err(StreamError::SourceError(e)) => POut::Source(line_of(&e)), Err(StreamError::SinkError(e)) => POut::Sink(e.0) });
+                o.sink_calls_after_failure = after; o.trace = trace;
+            }
+            Cons::Insert { init, which } => {
+                fn go<D: MutableDataset + Dataset + Default, S2: QuadSource<Error = TurtleError>>(init: &[Q], src: S2) -> (Vec<Q>, Result<usize, (POut, usize)>) {
+                    let mut d = D::default(); for q in init { d.insert_quad(q.clone()).ok().unwrap(); }
+                    let before = d.quads().count();
+                    let res = d.insert_all(src).map_err(|e| match e { StreamError::SourceError(e) => POut::Source(line_of(&e)), StreamError::SinkError(_) => POut::SinkOther("store error".into()) });
+                    let content: Vec<Q> = d.quads().map(|q| own(q.ok().unwrap())).collect();
+                    // a failed insert_all returns only the error: the number of statements added so far is read off the store
+                    let added = content.len() - before;
+                    (content, res.map_err(|e| (e, added)))
+                }
+                let (content, res) = match which { 0 => go::<sophia_inmem::dataset::FastDataset, _>(init, ByRef(&mut s)), 1 => go::<std::collections::BTreeSet<Q>, _>(init, ByRef(&mut s)), _ => go::<std::collections::HashSet<Q>, _>(init, ByRef(&mut s)) };
+                o.content = content;
+                match res { Ok(n) => { o.count = n; o.out = Some(POut::Done) } Err((e, added)) => { o.count = added; o.out = Some(e) } }
+            }
+            Cons::Ser { nt_out, wd } => {
+                let mut probe = WriteProbe::new(*wd);
+                let res: Result<(), StreamError<TurtleError, io::Error>> = if *nt_out { NtSerializer::new(&mut probe).serialize_triples(ByRef(&mut s).to_triples()).map(|_| ()) } else { NqSerializer::new(&mut probe).serialize_quads(ByRef(&mut s)).map(|_| ()) };
+                o.out = Some(match res { Ok(()) => POut::Done, Err(StreamError::SourceError(e)) => POut::Source(line_of(&e)), Err(StreamError::SinkError(e)) => io_payload(&e) });
+                o.bytes = probe.acc; o.calls = probe.calls; o.after = probe.after;
+            }
+        }
+        o.reads_at_failure = reads.get();
+        // pull on: what the source still delivers tells where the parser stopped
+        let mut guard = 0;
+        loop {
+            guard += 1; if guard > 10_000 { o.resumed.push(Err(u64::MAX)); break; }
+            let mut got: Vec<Q> = vec![];
+            let r = s.try_for_some_quad(|q| -> Result<(), MyErr> { got.push(own(q)); Ok(()) });
+            o.resumed.extend(got.into_iter().map(Ok));
+            match r { Ok(true) => {} Ok(false) => break, Err(StreamError::SourceError(e)) => o.resumed.push(Err(line_of(&e))), Err(StreamError::SinkError(_)) => unreachable!() }
+        }
+        o.reads_total = reads.get();
+        o
+    }
+    fn l0<S>(s: S, chain: &[QA], c: &Cons, reads: &Rc<Cell<usize>>) -> Obs where S: Source<Error = TurtleError>, for<'x> S: Source<Item<'x> = Q> { assert!(chain.is_empty()); run(s, c, reads) }
+    macro_rules! qlevel { ($name:ident, $next:ident) => {
+        fn $name<S>(s: S, chain: &[QA], c: &Cons, reads: &Rc<Cell<usize>>) -> Obs where S: Source<Error = TurtleError>, for<'x> S: Source<Item<'x> = Q> {
+            match chain.split_first() {
+                None => run(s, c, reads),
+                Some((a, rest)) => { let a = a.clone(); match qkind(&a) {
+                    K::F => $next(s.filter_quads(move |q: &Q| qfilt(&a, q)), rest, c, reads),
+                    K::M => $next(s.map_quads(move |q: Q| qmapf(&a, q)), rest, c, reads),
+                    K::FM => $next(s.filter_map_quads(move |q: Q| qfmf(&a, q)), rest, c, reads),
+                } }
+            }
+        }
+    }; }
+    qlevel!(l1, l0); qlevel!(l2, l1); qlevel!(l3, l2);
+
+    // ---------- documents ----------
+    #[derive(Clone, Debug)]
+    pub enum LK { Stmt(Q), Blank, Bad }
+    fn pick_iri(r: &mut Rng) -> (String, ST) { let (t, v) = *r.pick(&[("<http://e/s>", "http://e/s"), ("<http://e/p>", "http://e/p"), ("<http://e/o>", "http://e/o"), ("<tag:x>", "tag:x"), ("<urn:a:b>", "urn:a:b"), ("<http://e/\u{e9}>", "http://e/\u{e9}"), ("<http://e/\\u00E9>", "http://e/\u{e9}"), ("<http://e/\\U0001F600>", "http://e/\u{1F600}")]); (t.to_string(), iri(v)) }
+    fn pick_bnode(r: &mut Rng) -> (String, ST) { let (t, v) = *r.pick(&[("_:b1", "b1"), ("_:x-y", "x-y"), ("_:a.b", "a.b"), ("_:0", "0")]); (t.to_string(), bnode(v)) }
+    fn pick_lit(r: &mut Rng) -> (String, ST) {
+        let xs = format!("{XSD}string");
+        let v: Vec<(&str, ST)> = vec![("\"x\"", lit_dt("x", &xs)), ("\"\"", lit_dt("", &xs)), ("\"a b\"", lit_dt("a b", &xs)), ("\"l\\nb\"", lit_dt("l\nb", &xs)), ("\"q\\\"t\\\\\"", lit_dt("q\"t\\", &xs)),
+            ("\"\u{e9}\"", lit_dt("\u{e9}", &xs)), ("\"\\u00E9\\t\"", lit_dt("\u{e9}\t", &xs)), ("\"x\"@en", lit_lang("x", "en")), ("\"x\"@fr-be", lit_lang("x", "fr-be")),
+            ("\"7\"^^<http://www.w3.org/2001/XMLSchema#integer>", lit_dt("7", &format!("{XSD}integer"))), ("\"x\"^^<http://www.w3.org/2001/XMLSchema#string>", lit_dt("x", &xs)), ("\"# not a comment\"", lit_dt("# not a comment", &xs))];
+        let (t, v) = r.pick(&v).clone(); (t.to_string(), v)
+    }
+    fn pick_subject(r: &mut Rng, depth: usize) -> (String, ST) { match r.below(if depth == 0 { 7 } else { 6 }) { 0..=3 => pick_iri(r), 4 | 5 => pick_bnode(r), _ => pick_quoted(r, depth + 1) } }
+    fn pick_object(r: &mut Rng, depth: usize) -> (String, ST) { match r.below(if depth == 0 { 9 } else { 8 }) { 0..=2 => pick_iri(r), 3 => pick_bnode(r), 4..=7 => pick_lit(r), _ => pick_quoted(r, depth + 1) } }
+    fn pick_quoted(r: &mut Rng, depth: usize) -> (String, ST) {
+        let (ts, s) = pick_subject(r, depth); let (tp, p) = pick_iri(r); let (to, o) = pick_object(r, depth);
+        let sp = |r: &mut Rng| r.ps(&[" ", " ", "", "\t"]).to_string();
+        (format!("<<{}{ts} {tp} {to}{}>>", sp(r), sp(r)), triple(s, p, o))
+    }
+    fn gen_stmt(r: &mut Rng, nq: bool) -> (String, Q) {
+        let (ts, s) = pick_subject(r, 0); let (tp, p) = pick_iri(r); let (to, o) = pick_object(r, 0);
+        let g = if nq && r.chance(1, 2) { Some(if r.chance(3, 4) { pick_iri(r) } else { pick_bnode(r) }) } else { None };
+        let sep = |r: &mut Rng| r.ps(&[" ", " ", " ", "  ", "\t", " \t "]).to_string();
+        let mut t = String::new();
+        t.push_str(r.ps(&["", "", "", " ", "\t "])); t.push_str(&ts); t.push_str(&sep(r)); t.push_str(&tp); t.push_str(&sep(r)); t.push_str(&to);
+        if let Some((tg, _)) = &g { t.push_str(&sep(r)); t.push_str(tg); }
+        t.push_str(r.ps(&[" ", " ", "", "  "])); t.push('.');
+        t.push_str(r.ps(&["", "", "", " ", " # c", "# <http://e/x> .", "\r", " \r", " \r<http://e/s> <http://e/p> <http://e/lost-after-CR> ."]));
+        (t, ([s, p, o], g.map(|x| x.1)))
+    }
+    fn gen_blank(r: &mut Rng) -> String { r.ps(&["", "", " ", "\t", "# comment", "  # <http://e/s> <http://e/p> <http://e/o> .", "\r", " \r", "#"]).to_string() }
+    fn gen_bad(r: &mut Rng, nq: bool) -> String {
+        let v = ["oops", "<http://e/s> <http://e/p> .", "<http://e/s> <http://e/p> \"unterminated .", "<http://e/s> \"lit\" <http://e/o> .", "<http://e/s> <http://e/p> <http://e/o> . junk",
+            "<http://e/s> <http://e/p> <http://e/o>", "<http://e/s> <http://e/p> <http://e/o> <http://e/g> <http://e/h> .", "<http://e/s> <http://e/p> \"x\"@ .", "<http://e/s> <http://e/p> \"\\q\" .",
+            "\"lit\" <http://e/p> <http://e/o> .", "<http://e/s> _:b <http://e/o> .", "<http://e/s> <http://e/p> <http://e/o> ;", "<< <http://e/s> <http://e/p> <http://e/o> <http://e/p> <http://e/o> .", "<http://e/s> <http://e/p> <http://e/o .",
+            "<http://e/s> <http://e/p> \"x\"^^ .", "<http://e/s> <http://e/p> <http://e/o> \"g\" .", "<http://e/s> <http://e/p> \"\\u12\" .", "<http://e/s> <http://e/p> <http://e/o> .."];
+        if !nq && r.chance(1, 4) { return "<http://e/s> <http://e/p> <http://e/o> <http://e/g> .".to_string(); }
+        r.ps(&v).to_string()
+    }
+    /// canonical N-Quads line, written here independently of sophia (the oracle's writer)
+    fn canon_term(t: &ST, out: &mut Vec<u8>) {
+        match t {
+            ST::Iri(i) => { out.push(b'<'); out.extend_from_slice(i.as_str().as_bytes()); out.push(b'>'); }
+            ST::BlankNode(b) => { out.extend_from_slice(b"_:"); out.extend_from_slice(b.as_str().as_bytes()); }
+            ST::Variable(v) => { out.push(b'?'); out.extend_from_slice(v.as_str().as_bytes()); }
+            ST::LiteralDatatype(l, d) => { canon_lex(l, out); if d.as_str() != format!("{XSD}string") { out.extend_from_slice(b"^^<"); out.extend_from_slice(d.as_str().as_bytes()); out.push(b'>'); } }
+            ST::LiteralLanguage(l, tag) => { canon_lex(l, out); out.push(b'@'); out.extend_from_slice(tag.as_str().as_bytes()); }
+            ST::Triple(b) => { out.extend_from_slice(b"<<"); canon_term(&b[0], out); out.push(b' '); canon_term(&b[1], out); out.push(b' '); canon_term(&b[2], out); out.extend_from_slice(b">>"); }
+        }
+    }
+    fn canon_lex(l: &str, out: &mut Vec<u8>) { out.push(b'"'); for c in l.bytes() { match c { b'\n' => out.extend_from_slice(b"\\n"), b'\r' => out.extend_from_slice(b"\\r"), b'"' => out.extend_from_slice(b"\\\""), b'\\' => out.extend_from_slice(b"\\\\"), c => out.push(c) } } out.push(b'"'); }
+    pub fn canon_quad(q: &Q) -> Vec<u8> { let mut o = vec![]; canon_term(&q.0[0], &mut o); o.push(b' '); canon_term(&q.0[1], &mut o); o.push(b' '); canon_term(&q.0[2], &mut o); if let Some(g) = &q.1 { o.push(b' '); canon_term(g, &mut o); } o.extend_from_slice(b".\n"); o }
+
+    fn fold_q(q: &Q) -> String { format!("{q:?}") }
+
+    pub fn case(idx: usize, r: &mut Rng, flavour: usize, verbose: bool, sum: &mut Summary, cases: &mut Vec<(usize, String)>, seen: &mut std::collections::HashSet<String>) {
+        sum.evaluations += 1;
+        let xs = format!("{XSD}string");
+        // ----- the serializer alone over arbitrary statements (1 case in 6 of flavour 5) -----
+        if flavour == 5 && r.chance(1, 6) {
+            let pool: Vec<ST> = vec![iri("http://e/s"), iri("rel"), iri(""), bnode("b"), var("v"), lit_dt("", &xs), lit_dt("\n\n\"\\\r", &xs), lit_dt("a\nb\"c", &xs), lit_dt("ends with backslash\\", &xs), lit_lang("h\u{e9}llo\n", "en-GB"),
+                lit_dt("1", &format!("{XSD}integer")), triple(bnode("b"), iri("http://e/p"), triple(iri("http://e/s"), iri("http://e/p"), lit_dt("\"", &xs)))];
+            let qs: Vec<Q> = (0..r.below(4)).map(|_| ([r.pick(&pool).clone(), r.pick(&pool).clone(), r.pick(&pool).clone()], if r.chance(1, 2) { Some(r.pick(&pool).clone()) } else { None })).collect();
+            let total: Vec<u8> = qs.iter().flat_map(|q| canon_quad(q)).collect();
+            let wd = gen_wd(r, total.len());
+            let mut probe = WriteProbe::new(wd);
+            let res = NqSerializer::new(&mut probe).serialize_quads(qs.clone().into_iter().into_source()).map(|_| ());
+            let out = match res { Ok(()) => POut::Done, Err(StreamError::SinkError(e)) => io_payload(&e), Err(StreamError::SourceError(_)) => unreachable!() };
+            let text = format!("serializer alone: statements={} writer={wd:?}", qs.iter().map(fold_q).collect::<Vec<_>>().join(" | "));
+            check_writer(idx, &text, &wd, &total, &probe.acc, probe.after, &out, sum);
+            sum.bump("concrete:serializer-alone"); if seen.insert(text.clone()) && out != POut::Done && !probe.acc.is_empty() { sum.distinct_nontrivial += 1; }
+            if verbose { println!("CASE {idx}: {text}\nIMPL bytes={:?} calls={} after={} out={out:?}", String::from_utf8_lossy(&probe.acc), probe.calls, probe.after); }
+            let c_err = match &out { POut::Done => "None".to_string(), POut::Sink(c) => format!("(Some (EDev {c}))"), POut::SinkWriteZero => "(Some EWriteZero)".into(), _ => "(Some (EDev 0))".into() };
+            cases.push((idx, format!("run_ser_ok {} {} {} {}%nat {}%nat {c_err}", coq_list(qs.iter().map(c_quad)), c_wd(&wd), coq_bytes(&probe.acc), probe.calls, probe.after)));
+            return;
+        }
+        // ----- a document -----
+        let nq = r.chance(1, 2);
+        let n_lines = r.below(8);
+        let mut lines: Vec<(String, LK)> = (0..n_lines).map(|_| match r.below(10) { 0..=6 => { let (t, q) = gen_stmt(r, nq); (t, LK::Stmt(q)) } _ => (gen_blank(r), LK::Blank) }).collect();
+        let n_bad = *r.pick(&[0usize, 0, 1, 1, 1, 2]);
+        for _ in 0..n_bad { let k = r.below(lines.len() + 1); lines.insert(k, (gen_bad(r, nq), LK::Bad)); }
+        let mut doc = String::new();
+        for (i, (t, _)) in lines.iter().enumerate() { doc.push_str(t); if i + 1 < lines.len() || r.chance(3, 4) { doc.push('\n'); } }
+        // an empty last line without LF is not a line at all
+        if let Some((t, k)) = lines.last() { if t.is_empty() && !doc.ends_with('\n') && matches!(k, LK::Blank) { lines.pop(); } }
+        let depth = r.below(4);
+        let all_qa = [QA::FilterDefaultGraph, QA::FilterNamedGraph, QA::FilterObjLiteral, QA::FilterPred("http://e/p"), QA::FilterNone, QA::FilterAll, QA::MapDropGraph, QA::MapSetGraph("http://e/g2"), QA::MapSetObj("same"), QA::FmGraphFromObj, QA::FmUnquote];
+        let chain: Vec<QA> = (0..depth).map(|_| r.pick(&all_qa).clone()).collect();
+        // what the statements become, line by line (the oracle knows the statements because it generated them)
+        let images: Vec<Option<Q>> = lines.iter().map(|(_, k)| match k { LK::Stmt(q) => qthrough(&chain, q.clone()), _ => None }).collect();
+        let first_bad = lines.iter().position(|(_, k)| matches!(k, LK::Bad));
+        let good_end = first_bad.unwrap_or(lines.len());
+        let produced: Vec<(usize, Q)> = (0..good_end).filter_map(|i| images[i].clone().map(|q| (i, q))).collect();
+        let total: Vec<u8> = produced.iter().flat_map(|(_, q)| canon_quad(q)).collect();
+        let cons = if flavour == 4 {
+            if r.chance(2, 3) { Cons::Rec { fault: if r.chance(1, 2) { Some((r.below(produced.len() + 2), 200 + r.below(50) as u64)) } else { None }, stepwise: r.chance(1, 2) } }
+            else { let mut init: Vec<Q> = vec![]; for _ in 0..r.below(3) { if let Some((_, q)) = produced.get(r.below(produced.len().max(1))) { init.push(q.clone()) } else { init.push(gen_stmt(r, nq).1) } } Cons::Insert { init, which: r.below(3) } }
+        } else { Cons::Ser { nt_out: r.chance(1, 2), wd: gen_wd(r, total.len()) } };
+        // the NT serializer writes the triple part only: the oracle's expectation drops the graph names
+        let total: Vec<u8> = if let Cons::Ser { nt_out: true, .. } = &cons { produced.iter().flat_map(|(_, q)| canon_quad(&(q.0.clone(), None))).collect() } else { total };
+        // the consumer sits directly on the parser adapter: no adapter, not even the owning map layer
+        let direct = depth == 0 && r.chance(1, 2) && (nq || matches!(&cons, Cons::Rec { .. } | Cons::Ser { nt_out: true, .. }));
+        let reads = Rc::new(Cell::new(0usize));
+        let chunk = *r.pick(&[1usize, 2, 5, 17, 4096]); let bufcap = *r.pick(&[1usize, 3, 16, 8192]);
+        let probe = ReadProbe { data: doc.clone().into_bytes(), pos: 0, chunk, reads: reads.clone() };
+        let rd = io::BufReader::with_capacity(bufcap, probe);
+        let obs = match (nq, direct) {
+            (true, true) => run(sophia_turtle::parser::nq::parse_bufread(rd), &cons, &reads),
+            (true, false) => l3(sophia_turtle::parser::nq::parse_bufread(rd).map_quads(|q| own(q)), &chain, &cons, &reads),
+            (false, true) => run_t(sophia_turtle::parser::nt::parse_bufread(rd), &cons, &reads),
+            (false, false) => l3(sophia_turtle::parser::nt::parse_bufread(rd).to_quads().map_quads(|q| own(q)), &chain, &cons, &reads),
+        };
+        let out = obs.out.clone().unwrap();
+        let text = format!("document({})={doc:?} chain={chain:?}{} consumer={cons:?} read-chunk={chunk} bufreader={bufcap}", if nq { "N-Quads" } else { "N-Triples" }, if direct { " [consumer directly on the parser adapter]" } else { "" });
+        // ----- the oracle: the property, computed from the generated lines -----
+        // where does the run stop?  after line `stop` (0-based), or at the end
+        let line_no = |i: usize| (i + 1) as u64;
+        let (exp_out, stop, exp_consumed): (POut, Option<usize>, Vec<Q>) = match &cons {
+            Cons::Rec { fault: Some((j, e)), .. } if *j < produced.len() => (POut::Sink(*e), Some(produced[*j].0), produced[..=*j].iter().map(|x| x.1.clone()).collect()),
+            Cons::Ser { wd, .. } if writer_fails(wd, &total) => {
+                let failing = failing_statement(wd, &produced, &total, matches!(&cons, Cons::Ser { nt_out: true, .. }));
+                (match wd { WD::Zero { .. } => POut::SinkWriteZero, WD::Budget { code, .. } | WD::Atomic { code, .. } => POut::Sink(*code) }, Some(produced[failing].0), produced[..=failing].iter().map(|x| x.1.clone()).collect())
+            }
+            _ => match first_bad { Some(k) => (POut::Source(line_no(k)), Some(k), produced.iter().map(|x| x.1.clone()).collect()), None => (POut::Done, None, produced.iter().map(|x| x.1.clone()).collect()) },
+        };
+        let exp_resumed: Vec<Result<Q, u64>> = match stop { None => vec![], Some(k) => (k + 1..lines.len()).filter_map(|i| match &lines[i].1 { LK::Bad => Some(Err(line_no(i))), LK::Stmt(_) => images[i].clone().map(Ok), LK::Blank => None }).collect() };
+        let mut problems: Vec<String> = vec![];
+        if out != exp_out { problems.push(format!("outcome {out:?}, expected {exp_out:?}")); }
+        if obs.resumed != exp_resumed { problems.push(format!("after the run the source still delivers {:?}, expected {:?} (the lines after the one at which the run stopped)", obs.resumed, exp_resumed)); }
+        if obs.reads_total > doc.len() + 3 { problems.push(format!("{} read calls for {} bytes", obs.reads_total, doc.len())); }
+        match &cons {
+            Cons::Rec { .. } => { if obs.trace != exp_consumed { problems.push(format!("the consumer received {:?}, expected {:?}", obs.trace, exp_consumed)); } if obs.sink_calls_after_failure > 0 { problems.push(format!("the consumer was called {} more time(s) after it had failed", obs.sink_calls_after_failure)); } }
+            Cons::Insert { init, .. } => {
+                let mut set: Vec<Q> = vec![]; for q in init { if !set.iter().any(|x| x == q) { set.push(q.clone()) } } let before = set.len();
+                for q in &exp_consumed { if !set.iter().any(|x| x == q) { set.push(q.clone()) } }
+                let mut a: Vec<String> = obs.content.iter().map(fold_q).collect(); a.sort(); let mut b: Vec<String> = set.iter().map(fold_q).collect(); b.sort();
+                if a != b { problems.push(format!("store content {a:?}, expected {b:?}")); }
+                if out == POut::Done && obs.count != set.len() - before { problems.push(format!("insert_all returned {}, but {} new statements were added", obs.count, set.len() - before)); }
+            }
+            Cons::Ser { wd, .. } => check_writer_into(&mut problems, wd, &total, &obs.bytes, obs.after, &out),
+        }
+        for p in &problems { sum.oracle_failures.push((idx.to_string(), format!("{text}: {p}"))); }
+        if verbose { println!("CASE {idx}: {text}\nIMPL   {obs:?}\nORACLE out={exp_out:?} consumed={exp_consumed:?} resumed={exp_resumed:?} total={:?}", String::from_utf8_lossy(&total)); }
+        sum.bump(&format!("concrete:{}:{}", if nq { "nq" } else { "nt" }, match &cons { Cons::Rec { .. } => "closure", Cons::Insert { .. } => "insert_all", Cons::Ser { nt_out: true, .. } => "nt-serializer", Cons::Ser { .. } => "nq-serializer" }));
+        sum.bump(&format!("concrete-outcome:{}", match exp_out { POut::Done => "done", POut::Source(_) => "source-error", _ => "sink-error" }));
+        if direct { sum.bump("concrete:direct"); }
+        if seen.insert(text.clone()) && exp_out != POut::Done && !exp_consumed.is_empty() { sum.distinct_nontrivial += 1; }
+        if sum.samples.len() < 8 && exp_out != POut::Done && !exp_consumed.is_empty() && idx % 6 >= 4 && sum.samples.iter().filter(|s| s.contains("document(")).count() < 3 { sum.samples.push(format!("case {idx}: {text} => {out:?}, {} statement(s) consumed, source then still delivers {} item(s)/error(s)", exp_consumed.len(), obs.resumed.len())); }
+        // ----- the Coq case -----
+        let mut c_chain: Vec<String> = if direct { vec![] } else { vec!["QMapId".to_string()] };
+        c_chain.extend(chain.iter().map(c_qa));
+        let c_doc = coq_str(&doc);
+        let c_res = coq_list(obs.resumed.iter().map(|x| match x { Ok(q) => format!("inl {}", c_quad(q)), Err(l) => format!("inr {l}") }));
+        match &cons {
+            Cons::Rec { fault, .. } => { let c_fault = match fault { None => "None".to_string(), Some((j, e)) => format!("(Some ({j}%nat, {e}))") };
+                cases.push((idx, format!("run_parse_rec_ok {nq} {c_doc} {} {c_fault} {} {} {c_res}", coq_list(c_chain), coq_list(obs.trace.iter().map(c_quad)), c_pkind(&out)))); }
+            Cons::Insert { init, .. } => cases.push((idx, format!("run_parse_insert_ok {nq} {c_doc} {} {} {} {} {}", coq_list(c_chain), coq_list(init.iter().map(c_quad)), coq_list(obs.content.iter().map(c_quad)), obs.count, c_pkind(&out)))),
+            Cons::Ser { nt_out, wd } => cases.push((idx, format!("run_parse_ser_ok {nq} {c_doc} {} {} {} {} {}%nat {}%nat {} {c_res}", coq_list(c_chain), *nt_out && !(direct && !nq), c_wd(wd), coq_bytes(&obs.bytes), obs.calls, obs.after, c_skind(&out)))),
+        }
+    }
+
+    /// N-Triples, no adapter at all between the parser and the consumer (closure or NtSerializer)
+    fn run_t<S>(mut s: S, c: &Cons, reads: &Rc<Cell<usize>>) -> Obs where S: TripleSource<Error = TurtleError> {
+        let mut o = Obs::default();
+        match c {
+            Cons::Rec { fault, stepwise } => {
+                let mut failed = false; let mut after = 0usize; let mut trace: Vec<Q> = vec![];
+                let mut f = |q: Q| -> Result<(), MyErr> { if failed { after += 1; } trace.push(q); match fault { Some((j, e)) if trace.len() == *j + 1 => { failed = true; Err(MyErr(*e)) } _ => Ok(()) } };
+                let res: Result<(), StreamError<TurtleError, MyErr>> = if *stepwise { loop { match s.try_for_some_triple(|t| f(own3(t))) { Ok(true) => {} Ok(false) => break Ok(()), Err(e) => break Err(e) } } } else { s.try_for_each_triple(|t| f(own3(t))) };
+                o.out = Some(match res { Ok(()) => POut::Done, Err(StreamError::SourceError(e)) => POut::Source(line_of(&e)), Err(StreamError::SinkError(e)) => POut::Sink(e.0) });
+                o.sink_calls_after_failure = after; o.trace = trace;
+            }
+            Cons::Ser { nt_out: true, wd } => {
+                let mut probe = WriteProbe::new(*wd);
+                let res: Result<(), StreamError<TurtleError, io::Error>> = NtSerializer::new(&mut probe).serialize_triples(ByRef(&mut s)).map(|_| ());
+                o.out = Some(match res { Ok(()) => POut::Done, Err(StreamError::SourceError(e)) => POut::Source(line_of(&e)), Err(StreamError::SinkError(e)) => io_payload(&e) });
+                o.bytes = probe.acc; o.calls = probe.calls; o.after = probe.after;
+            }
+            _ => unreachable!(),
+        }
+        o.reads_at_failure = reads.get();
+        let mut guard = 0;
+        loop {
+            guard += 1; if guard > 10_000 { o.resumed.push(Err(u64::MAX)); break; }
+            let mut got: Vec<Q> = vec![];
+            let r = s.try_for_some_triple(|t| -> Result<(), MyErr> { got.push(own3(t)); Ok(()) });
+            o.resumed.extend(got.into_iter().map(Ok));
+            match r { Ok(true) => {} Ok(false) => break, Err(StreamError::SourceError(e)) => o.resumed.push(Err(line_of(&e))), Err(StreamError::SinkError(_)) => unreachable!() }
+        }
+        o.reads_total = reads.get();
+        o
+    }
+
+    fn gen_wd(r: &mut Rng, total: usize) -> WD {
+        let budget = match r.below(4) { 0 => r.below(total + 20), 1 => total, 2 => total.saturating_sub(r.below(3)), _ => r.below(total.max(1)) };
+        match r.below(6) { 0 | 1 | 2 => WD::Budget { budget, cap: *r.pick(&[1usize, 2, 3, 7, 1000]), code: 300 + r.below(50) as u64 }, 3 | 4 => WD::Atomic { budget, code: 400 + r.below(50) as u64 }, _ => WD::Zero { budget, cap: *r.pick(&[1usize, 4, 1000]) } }
+    }
+    /// does this writer refuse something when the serializer writes `total`?  (Budget / Zero: as soon as there are more
+    /// bytes than the budget; Atomic: decided by replaying whole statements is not possible without the chunking, so the
+    /// oracle only uses the two general facts below for it)
+    fn writer_fails(wd: &WD, total: &[u8]) -> bool { match wd { WD::Budget { budget, .. } | WD::Zero { budget, .. } => total.len() > *budget, WD::Atomic { budget, .. } => total.len() > *budget } }
+    /// index (in `produced`) of the statement during which the writer fails
+    fn failing_statement(wd: &WD, produced: &[(usize, Q)], _total: &[u8], nt: bool) -> usize {
+        let budget = match wd { WD::Budget { budget, .. } | WD::Zero { budget, .. } | WD::Atomic { budget, .. } => *budget };
+        let mut end = 0usize;
+        for (i, (_, q)) in produced.iter().enumerate() { end += if nt { canon_quad(&(q.0.clone(), None)).len() } else { canon_quad(q).len() }; if end > budget { return i; } }
+        produced.len() - 1
+    }
+    fn check_writer_into(problems: &mut Vec<String>, wd: &WD, total: &[u8], acc: &[u8], after: usize, out: &POut) {
+        if !total.starts_with(acc) { problems.push(format!("the writer accepted {:?}, which is not a prefix of the serialisation {:?}", String::from_utf8_lossy(acc), String::from_utf8_lossy(total))); }
+        if after > 0 { problems.push(format!("{after} call(s) of write/flush after a call had failed")); }
+        match wd {
+            WD::Budget { budget, .. } | WD::Zero { budget, .. } => { if acc.len() != (*budget).min(total.len()) { problems.push(format!("the writer accepted {} bytes, expected min(budget {budget}, {})", acc.len(), total.len())); } }
+            WD::Atomic { budget, .. } => { if acc.len() > *budget { problems.push("more bytes than the budget".into()); } if total.len() <= *budget && acc.len() != total.len() { problems.push("everything fits but not everything was written".into()); } }
+        }
+        let fails = writer_fails(wd, total);
+        let is_sink = matches!(out, POut::Sink(_) | POut::SinkWriteZero);
+        if fails && !is_sink { problems.push(format!("the writer had to refuse bytes but the outcome is {out:?}")); }
+        if let POut::SinkOther(s) = out { problems.push(format!("the sink error does not carry the writer's error value: {s}")); }
+    }
+    fn check_writer(idx: usize, text: &str, wd: &WD, total: &[u8], acc: &[u8], after: usize, out: &POut, sum: &mut Summary) {
+        let mut problems = vec![]; check_writer_into(&mut problems, wd, total, acc, after, out);
+        let exp = if writer_fails(wd, total) { match wd { WD::Zero { .. } => POut::SinkWriteZero, WD::Budget { code, .. } | WD::Atomic { code, .. } => POut::Sink(*code) } } else { POut::Done };
+        if *out != exp { problems.push(format!("outcome {out:?}, expected {exp:?}")); }
+        for p in problems { sum.oracle_failures.push((idx.to_string(), format!("{text}: {p}"))); }
+    }
 }
